@@ -10,6 +10,12 @@ mix in one list; optionally followed by a keyword with the separator's text =
 a trailing separator) and `eolterm` (texts then have line breaks).  Values are
 base types, string matches, a user match rule and a contained rule; the two
 user rules take their names from a pool that contains `sep` and `list`.
+Rules carry rule modifiers (`[skipws]`, `[noskipws]`, `[ws=…]`, `[split=…]`, alone
+or combined) over every root shape — a lone assignment, one repetition / optional /
+unordered group, a sequence, a choice (`visit_textx_rule` builds the root parsing
+expression differently for them); tokens inside a `noskipws` rule are written
+without blanks.  Redundant parentheses and packrat memoization are further
+dimensions that must not change anything.
 
 Implementation side (`impl`): `metamodel_from_str` -> inferred multiplicities
 (`cls._tx_attrs[a].mult`) or the grammar error; per text: the parse tree of the
@@ -42,6 +48,11 @@ SEPS = [({"s": ","}, 36), ({"s": "|"}, 8), ({"s": ",", "re": True}, 6), ({"s": "
         ({"s": ",", "re": True, "opt": True}, 24), ({"s": "|", "re": True, "opt": True}, 10),
         ({"s": ",", "re": True, "alt": ";", "opt": True}, 8)]
 
+# rule modifiers: (list of [name, value or None], weight); ws values always contain the blank
+RULE_PARAMS = [([["skipws", None]], 30), ([["noskipws", None]], 22), ([["ws", " \\t\\n"]], 10), ([["ws", " \\t"]], 6),
+               ([["ws", " \t\n"]], 4), ([["split", "/"]], 8), ([["skipws", None], ["ws", " \\t\\n"]], 8),
+               ([["ws", " \\n"], ["noskipws", None]], 6), ([["split", "."], ["skipws", None]], 6)]
+
 INT_VALUES = ["0", "0", "0", "1", "2", "7", "42", "-3"]
 FLOAT_VALUES = ["0.0", "0.0", "2.5", "1.0", "7.25"]
 BOOL_VALUES = ["false", "false", "true", "0", "1"]
@@ -71,6 +82,13 @@ def normalize(n):
     """What the grammar text means: one-element sequences / choices are the
     element; `( s )#` over a single sequence or choice is the group of its
     elements."""
+    r = _normalize(n)
+    if n.get("par") and not r.get("par"):
+        r = dict(r, par=True)  # redundant parentheses: written, mean nothing
+    return r
+
+
+def _normalize(n):
     k = n["k"]
     if k in ("seq", "alt"):
         xs = [normalize(x) for x in n["xs"]]
@@ -134,7 +152,10 @@ def render_rhs(a, names=None):
 def render(n, ctx="top", names=None):
     """ctx: top (rule body / inside parentheses), alt (alternative of a choice), seq (element of a
     sequence), post (operand of a postfix operator).  Nested sequences and choices are parenthesised so
-    that the parser model textX builds has the shape of the AST."""
+    that the parser model textX builds has the shape of the AST.  A node with `par` is written in
+    (redundant) parentheses of its own."""
+    if n.get("par"):
+        return "(" + render({kk: v for kk, v in n.items() if kk != "par"}, "top", names) + ")"
     k = n["k"]
     if k == "kw":
         return "'" + n["s"] + "'"
@@ -179,12 +200,36 @@ def val_rule(case):
     return case.get("val") or {"kind": "re"}
 
 
+def rule_params(case, rule):
+    """The rule modifiers of the rule: [[name, value or None], …] (name: skipws | noskipws | ws | split)."""
+    return (case.get("params") or {}).get(rule) or []
+
+
+def render_params(ps):
+    if not ps:
+        return ""
+    return "[" + ", ".join(n if v is None else f"{n}='{v}'" for n, v in ps) + "]"
+
+
+def skips_ws(ps, inherited):
+    """Does a rule with these modifiers skip whitespace (the last of skipws / noskipws counts; without one
+    the rule behaves like the rule it is called from)?"""
+    for n, _ in ps:
+        if n in ("skipws", "noskipws"):
+            inherited = n == "skipws"
+    return inherited
+
+
 def grammar_text(case):
     rules = case["rules"]
     names = names_of(case)
-    out = [f"Model: {render(normalize(rules['Model']), 'top', names)} ;"]
+    out = [f"Model{render_params(rule_params(case, 'Model'))}: {render(normalize(rules['Model']), 'top', names)} ;"]
     if "Sub" in rules:
-        out.append(f"{names['Sub']}: '@sub' {render(normalize(rules['Sub']), 'seq', names)} ;")
+        head = f"{names['Sub']}{render_params(rule_params(case, 'Sub'))}: "
+        if case.get("sub_bare"):
+            out.append(head + f"{render(normalize(rules['Sub']), 'top', names)} ;")
+        else:
+            out.append(head + f"'@sub' {render(normalize(rules['Sub']), 'seq', names)} ;")
     if any(uses_rhs(b, "Val") for b in rules.values()):
         v = val_rule(case)
         body = "/[a-z][a-z0-9]*/" if v["kind"] == "re" else " | ".join(v["alts"])
@@ -216,9 +261,9 @@ def lean_body(n, idx):
 
 
 def rule_body(case, rule):
-    """The body as textX sees it (Sub has its leading keyword)."""
+    """The body as textX sees it (Sub has its leading keyword, unless the case writes it bare)."""
     b = normalize(case["rules"][rule])
-    if rule == "Sub":
+    if rule == "Sub" and not case.get("sub_bare"):
         b = {"k": "seq", "xs": [{"k": "kw", "s": "@sub"}, b]}
     return b
 
@@ -331,6 +376,7 @@ class G:
         self.pref = {}
         self.sites = 0
         self.flags_used = []
+        self.kw_always = False
 
     def keyword(self):
         self.kw += 1
@@ -345,7 +391,7 @@ class G:
         if attr not in self.pref:
             pool = [("NUM", 5), ("STRING", 3), ("BOOL", 2), ("ID", 1), ("LIT", 1)]
             if self.allow_sub:
-                pool.append(("Sub", 2))
+                pool.append(("Sub", 3))
             if self.allow_val:
                 pool.append(("Val", 3))
             self.pref[attr] = rng.weighted(pool)
@@ -383,7 +429,7 @@ class G:
                 tail = {"k": "kw", "s": a["sep"]["s"]}
                 if rng.chance(0.6):
                     tail = {"k": "opt", "x": tail}
-        xs = ([self.keyword()] if rng.chance(0.65) else []) + [a] + ([tail] if tail else [])
+        xs = ([self.keyword()] if rng.chance(0.65) or self.kw_always else []) + [a] + ([tail] if tail else [])
         return {"k": "seq", "xs": xs} if len(xs) > 1 else a
 
     def modifiers(self, node, p):
@@ -394,11 +440,17 @@ class G:
         if node["k"] != "un" and rng.chance(0.08):
             node["eol"] = rng.choice([True, True, "first"])
 
-    def body(self, depth):
+    def body(self, depth, force=None):
+        node = self.body_(depth, force)
+        if node["k"] != "kw" and self.rng.chance(0.05):
+            node["par"] = True
+        return node
+
+    def body_(self, depth, force=None):
         rng = self.rng
-        if depth <= 0 or self.sites >= 7:
+        if force is None and (depth <= 0 or self.sites >= 7):
             return self.site() if rng.chance(0.9) else self.keyword()
-        k = rng.weighted([("site", 30), ("seq", 26), ("alt", 18), ("opt", 8), ("rep", 9), ("un", 7), ("kw", 2)])
+        k = force or rng.weighted([("site", 30), ("seq", 26), ("alt", 18), ("opt", 8), ("rep", 9), ("un", 7), ("kw", 2)])
         if k == "site":
             return self.site()
         if k == "kw":
@@ -432,6 +484,37 @@ def nullable(n):
     if k == "rep":
         return (not n["plus"]) or nullable(n["x"])
     raise ValueError(k)
+
+
+def kw_first(n):
+    """Does every non-empty match of `n` start with a keyword?"""
+    k = n["k"]
+    if k == "kw":
+        return True
+    if k == "asgn":
+        return False
+    if k == "seq":
+        for x in n["xs"]:
+            if not kw_first(x):
+                return False
+            if not nullable(x):
+                return True
+        return True
+    return all(kw_first(c) for c in kids(n))
+
+
+def can_be_bare(body):
+    """The contained rule may be written without its leading keyword `@sub` (its body is then the whole
+    rule, with a root of any shape) when it cannot match the empty string and always starts with a keyword:
+    an object then still starts at a token that no value of a list before it can swallow."""
+    b = normalize(body)
+    return not nullable(b) and kw_first(b)
+
+
+def top_glue(case):
+    """Are the tokens of the rule `Model` written without blanks (the rule, or else the metamodel, says
+    noskipws)?"""
+    return not skips_ws(rule_params(case, "Model"), bool(case.get("mm_skipws", True)))
 
 
 def loops_forever(n, in_rep=False):
@@ -468,9 +551,17 @@ def gen_case(rng):
     allow_val = rng.chance(0.3)
     nattrs = rng.weighted([(1, 2), (2, 5), (3, 3)])
     depth = rng.weighted([(1, 2), (2, 5), (3, 4)])
+    # rule modifiers; the root shape of a rule with modifiers is drawn on its own, so that every shape
+    # `visit_textx_rule` tells apart (lone assignment, one repetition / optional / unordered group,
+    # sequence, choice) meets every kind of modifier often
+    params = {}
+    force = None
+    if rng.chance(0.4):
+        params["Model"] = [list(x) for x in rng.weighted(RULE_PARAMS)]
+        force = rng.weighted([(None, 40), ("rep", 22), ("un", 16), ("opt", 8), ("site", 6), ("seq", 4), ("alt", 4)])
     for _ in range(20):
         g = G(rng, ATTRS[:nattrs], numeric, allow_sub, allow_val)
-        body = g.body(depth)
+        body = g.body(max(depth, 1) if force else depth, force)
         if not has_asgn(body):
             body = {"k": "seq", "xs": [body, g.site()]}
         if not loops_forever(normalize(body)):
@@ -478,20 +569,36 @@ def gen_case(rng):
     else:
         body = {"k": "seq", "xs": [g.site(), g.site()]}
     rules = {"Model": body}
+    bare = False
     if uses_sub(body):
         sdepth = rng.weighted([(1, 4), (2, 4)])
+        # the contained rule is written `'@sub' body` or, where that is unambiguous, bare (`body` is the whole
+        # rule and its root has any shape); a bare rule gets a keyword before every assignment
+        bare = rng.chance(0.4)
+        sforce = rng.weighted([(None, 40), ("rep", 30), ("un", 20), ("alt", 10)]) if bare else None
         for _ in range(20):
             gs = G(rng, SUB_ATTRS[: rng.randint(1, 2)], numeric, False, allow_val)
             gs.kw, gs.lit = 50, 50
-            sb = gs.body(sdepth)
+            gs.kw_always = bare
+            sb = gs.body(sdepth, sforce)
             if not has_asgn(sb):
                 sb = {"k": "seq", "xs": [sb, gs.site()]}
-            if not loops_forever(normalize(sb)):
+            if not loops_forever(normalize(sb)) and (not bare or can_be_bare(sb)):
                 break
         else:
             sb = gs.site()
         rules["Sub"] = sb
     case = {"rules": rules, "auto_init": rng.chance(0.7), "texts": []}
+    if "Sub" in rules and rng.chance(0.6 if bare else 0.35):
+        params["Sub"] = [list(x) for x in rng.weighted(RULE_PARAMS)]
+    if params:
+        case["params"] = params
+    if rng.chance(0.2):
+        case["memo"] = True  # packrat parsing: must not change anything
+    if rng.chance(0.06):
+        case["mm_skipws"] = False  # metamodel parameter: the same as [noskipws] on every rule that says nothing
+    if "Sub" in rules and bare and can_be_bare(rules["Sub"]):
+        case["sub_bare"] = True
     names = {}
     if "Sub" in rules:
         names["Sub"] = rng.choice(SUB_NAMES)
@@ -506,14 +613,14 @@ def gen_case(rng):
     return case
 
 
-def sep_token(sep, rng, out):
+def sep_token(sep, rng, out, glue=False):
     """One occurrence of the separator: a separator that can match nothing is left out half of the time."""
     if sep.get("opt") and rng.chance(0.5):
         return
     t = sep["s"]
     if sep.get("alt") and rng.chance(0.5):
         t = sep["alt"]
-    out.append(["sep", t])
+    out.append(tok("sep", t, glue))
 
 
 def value_token(rhs, rng, numeric, case=None):
@@ -537,18 +644,26 @@ def value_token(rhs, rng, numeric, case=None):
     raise ValueError(rhs)
 
 
-def derive(n, rng, case, out, fuel):
-    """Append tokens [kind, text] of one derivation of `n` (kind: kw | val | sep)."""
+def tok(kind, text, glue):
+    return [kind, text, 1] if glue else [kind, text]
+
+
+def derive(n, rng, case, out, fuel, glue=False):
+    """Append tokens [kind, text] of one derivation of `n` (kind: kw | val | sep | nl); a token matched inside
+    a rule that does not skip whitespace is [kind, text, 1] = written without a blank before it."""
     k = n["k"]
     if k == "kw":
-        out.append(["kw", n["s"]])
+        out.append(tok("kw", n["s"], glue))
     elif k == "asgn":
         def one():
             if n["rhs"] == "Sub":
-                out.append(["kw", "@sub"])
-                derive(normalize(case["rules"]["Sub"]), rng, case, out, fuel)
+                # the contained rule's own modifiers decide from its first token on, the caller's again after it
+                g = not skips_ws(rule_params(case, "Sub"), not glue)
+                if not case.get("sub_bare"):
+                    out.append(tok("kw", "@sub", g))
+                derive(normalize(case["rules"]["Sub"]), rng, case, out, fuel, g)
             else:
-                out.append(["val", value_token(n["rhs"], rng, None, case)])
+                out.append(tok("val", value_token(n["rhs"], rng, None, case), glue))
         op = n["op"]
         if op == "=":
             one()
@@ -562,18 +677,18 @@ def derive(n, rng, case, out, fuel):
                 cnt = max(cnt, 1)
             for i in range(cnt):
                 if i and sep:
-                    sep_token(sep, rng, out)
+                    sep_token(sep, rng, out, glue)
                 one()
             if n.get("eol") and rng.chance(0.75):
                 out.append(["nl", "\n"])
     elif k == "seq":
         for x in n["xs"]:
-            derive(x, rng, case, out, fuel)
+            derive(x, rng, case, out, fuel, glue)
     elif k == "alt":
-        derive(rng.choice(n["xs"]), rng, case, out, fuel)
+        derive(rng.choice(n["xs"]), rng, case, out, fuel, glue)
     elif k == "opt":
         if rng.chance(0.6):
-            derive(n["x"], rng, case, out, fuel)
+            derive(n["x"], rng, case, out, fuel, glue)
     elif k == "rep":
         cnt = rng.weighted([(0, 2), (1, 3), (2, 4), (3, 1)])
         if n["plus"]:
@@ -583,11 +698,11 @@ def derive(n, rng, case, out, fuel):
         sep = sep_of(n)
         for i in range(cnt):
             it = []
-            derive(n["x"], rng, case, it, max(0, fuel - len(out)))
+            derive(n["x"], rng, case, it, max(0, fuel - len(out)), glue)
             if i and sep:
                 if not it:
                     break  # an empty iteration ends the repetition
-                sep_token(sep, rng, out)
+                sep_token(sep, rng, out, glue)
             out.extend(it)
         if n.get("eol") and rng.chance(0.75):
             out.append(["nl", "\n"])
@@ -596,9 +711,9 @@ def derive(n, rng, case, out, fuel):
         first = True
         for x in rng.shuffle(n["xs"]):
             it = []
-            derive(x, rng, case, it, max(0, fuel - len(out)))
+            derive(x, rng, case, it, max(0, fuel - len(out)), glue)
             if it and sep and not first:
-                sep_token(sep, rng, out)
+                sep_token(sep, rng, out, glue)
             first = first and not it
             out.extend(it)
     else:
@@ -610,7 +725,7 @@ def gen_texts(case, rng, n):
     body = normalize(case["rules"]["Model"])
     for i in range(n):
         toks = []
-        derive(body, rng, case, toks, 14)
+        derive(body, rng, case, toks, 14, top_glue(case))
         origin = "derived"
         if i == n - 1 and toks and rng.chance(0.5):
             origin = "mutated"
@@ -628,7 +743,8 @@ def gen_texts(case, rng, n):
             else:
                 vs = [q for q, t in enumerate(toks) if t[0] == "val" and t[1][:1] in "0123456789-"]
                 if vs:
-                    toks[rng.choice(vs)] = ["val", "0"]
+                    q = rng.choice(vs)
+                    toks[q] = ["val", "0"] + toks[q][2:]
         texts.append({"tokens": toks[:40], "origin": origin})
     return texts
 
@@ -637,17 +753,39 @@ def has_eol(case):
     return any(n.get("eol") for b in case["rules"].values() for n in walk_nodes(b))
 
 
+def can_glue(prev, cur):
+    """May `cur` be written directly after `prev` so that the two are still read as these two tokens?
+    Keywords (`@NN`, `@sub`), separators, string-match values (`=NN`) and quoted strings end by themselves; a
+    word-like value (number, boolean, identifier) must be followed by a token that starts with none of its
+    characters."""
+    if prev[0] in ("kw", "sep", "nl") or prev[1][:1] in ("=", '"', "'"):
+        return True
+    return cur[0] == "nl" or cur[1][:1] in ("@", "=", ",", "|", ";", '"', "'")
+
+
+def layout(t):
+    """(text, [offset of every token]): tokens are separated by one blank, except a token of a rule that
+    does not skip whitespace (third element 1), which follows its predecessor directly where that is
+    unambiguous (elsewhere the blank stays and the text is simply not in the language)."""
+    parts, offs, pos, prev = [], [], 0, None
+    for x in t["tokens"]:
+        if prev is not None and not (len(x) > 2 and x[2] and can_glue(prev, x)):
+            parts.append(" ")
+            pos += 1
+        offs.append(pos)
+        parts.append(x[1])
+        pos += len(x[1])
+        prev = x
+    return "".join(parts), offs
+
+
 def text_of(t):
-    return " ".join(x[1] for x in t["tokens"])
+    return layout(t)[0]
 
 
 def token_kinds(t):
     """offset in `text_of(t)` -> kind of the token that starts there (kw | val | sep | nl)"""
-    out, pos = {}, 0
-    for kind, txt in t["tokens"]:
-        out[pos] = kind
-        pos += len(txt) + 1
-    return out
+    return {o: x[0] for o, x in zip(layout(t)[1], t["tokens"])}
 
 
 # --------------------------------------------------------------------------
@@ -704,6 +842,11 @@ class Prop(Check):
         "Mult.C02_sep_by_place_false",
         "Mult.C02_unrepaired_false",
         "Mult.C02_bool_then_plain_rejected",
+        "Mult.C02_rule_root",
+        "Mult.C02_rule_list_iff",
+        "Mult.C02_rule_list_iff_collect",
+        "Mult.C02_rule_store_raw",
+        "Mult.C02_skip_single_root_false",
     ]
     DRIVER = "Drivers/Mult.lean"
     QUICK_CASES = 300
@@ -715,12 +858,19 @@ class Prop(Check):
             "list assignments and unordered groups with repeat modifiers: separator = string or regex match, mandatory "
             "or able to match nothing (then written or left out at random per occurrence), optionally a trailing "
             "separator keyword after a list assignment, eolterm (texts with line breaks); user rule names from a pool "
-            "with `sep`, `list`, `eolterm`; 3 texts each (derived; one in two mutated; falsy "
+            "with `sep`, `list`, `eolterm`; rule modifiers ([skipws], [noskipws], [ws=…], [split=…], combined) on 40 % of the "
+            "Model rules and 35 % of the contained rules, the root shape of a rule with modifiers drawn on its own "
+            "(lone assignment / one repetition / optional / unordered group / sequence / choice), tokens inside a "
+            "noskipws rule written without blanks; redundant parentheses (5 % per node), packrat memoization (20 %); "
+            "metamodel-wide skipws=False (6 %); the contained rule 40 % of the time without its leading "
+            "keyword (then a keyword before each of its assignments; its root has any shape); 3 texts each (derived; one in two mutated; falsy "
             "values 0, \"\", false favoured); non-trivial = the grammar is accepted, some attribute is assigned at "
             ">=2 sites or below a repetition or with *= / +=, and at least one text is accepted in which some object "
             "gets >=2 values for one attribute or a falsy value")
     MODELLED = ("hand-modelled: lang.py visit_assignment (operator base multiplicities, ?= rejection) and "
-                "_update_attr_multiplicities (Mult.visit / Mult.walk); model.py process_node assignment branch and "
+                "_update_attr_multiplicities (Mult.visit / Mult.walk), started from the root expression visit_textx_rule makes of rule "
+                "modifiers + body (Mult.Rule.root: one-element sequence around a lone assignment / around a non-sequence "
+                "body of a rule with modifiers); model.py process_node assignment branch and "
                 "metamodel.py _init_obj_attrs (Mult.store / Mult.initHeap), the list branch on the raw node with its "
                 "separator children skipped by the identity of the separator match (Mult.storeKids / Mult.storeRaw); "
                 "tie X: op case — multiplicity per "
@@ -743,9 +893,15 @@ class Prop(Check):
             yield gen_case(rng)
         if tier == "thorough":
             yield from small_family(rng)
+            yield from rule_family(rng)
+        else:
+            # a different part of the complete rule-level family with every seed
+            fam = list(rule_family(rng.fork("family")))
+            for part in ("Model", "Sub"):
+                yield from rng.sample([c for c in fam if part in (c.get("params") or {"Model": 0})], 12)
 
     def extra_search(self, rng, tier, broken):
-        out = list(small_family(rng))
+        out = list(small_family(rng)) + list(rule_family(rng))
         out += [gen_case(rng) for _ in range(1500)]
         return out
 
@@ -760,7 +916,9 @@ class Prop(Check):
         obs = {"grammar_text": gtxt}
         try:
             with watchdog(40):
-                mm = metamodel_from_str(gtxt, auto_init_attributes=bool(case.get("auto_init", True)))
+                mm = metamodel_from_str(gtxt, auto_init_attributes=bool(case.get("auto_init", True)),
+                                        **({"memoization": True} if case.get("memo") else {}),
+                                        **({"skipws": False} if case.get("mm_skipws") is False else {}))
         except Watchdog:
             obs["grammar"] = {"other": "Watchdog", "msg": "grammar load did not finish in 40 s of CPU time"}
             return obs
@@ -780,11 +938,16 @@ class Prop(Check):
             obs["grammar"] = {"other": type(e).__name__, "msg": str(e)[:200]}
             return obs
         mults = {}
+        roots = {}
         names = names_of(case)
         for rule in case["rules"]:
             cls = mm[names[rule]]
             mults[rule] = {a: m.mult for a, m in cls._tx_attrs.items()}
+            # evidence only (not compared): the root parsing expression and how many operands it has
+            peg = getattr(cls, "_tx_peg_rule", None)
+            roots[rule] = [type(peg).__name__, len(getattr(peg, "nodes", []) or [])]
         obs["grammar"] = {"ok": mults}
+        obs["roots"] = roots
         obs["texts"] = []
         # name in the grammar text -> internal key, of the rules that make objects
         rule_names = {names[r]: r for r in case["rules"]}
@@ -951,8 +1114,9 @@ class Prop(Check):
     def model_req(self, case, obs):
         rules = self._rules(case)
         ridx = {r: i for i, (r, _, _, _) in enumerate(rules)}
-        req = {"op": "case", "rules": [{"body": lean_body(b, idx), "attrs": list(range(len(attrs)))}
-                                       for (_, b, attrs, idx) in rules], "objs": []}
+        req = {"op": "case", "rules": [{"params": bool(rule_params(case, r)), "body": lean_body(b, idx),
+                                        "attrs": list(range(len(attrs)))}
+                                       for (r, b, attrs, idx) in rules], "objs": []}
         for ti, o in self._tree_objs(obs):
             if o["rule"] not in ridx:
                 return {"op": "case", "rules": "unknown rule in parse tree"}
@@ -1140,7 +1304,11 @@ class Prop(Check):
              "attrs_with_2plus_values_in_some_text": 0, "watchdog": 0,
              "list_nodes": 0, "list_nodes_with_separator": 0, "list_nodes_not_alternating": 0,
              "list_nodes_trailing_separator": 0, "grammars_with_rule_named_sep": 0, "grammars_with_eolterm": 0,
-             "grammars_with_nullable_separator": 0}
+             "grammars_with_nullable_separator": 0,
+             "grammars_with_rule_modifiers": 0, "rules_with_modifiers_by_root": {}, "rules_root_wrapped_model": 0,
+             "rules_root_wrapped_agreement": [0, 0], "texts_accepted_in_noskipws_grammars": 0,
+             "grammars_with_memoization": 0, "grammars_with_redundant_parentheses": 0,
+             "grammars_with_metamodel_noskipws": 0, "contained_rules_without_keyword_by_root": {}}
         d["exact_multiplicity_agreement"] = [0, 0]
         for c, o, mo in zip(cases, obs, outs):
             if isinstance(o, dict) and "ok" in o.get("grammar", {}) and isinstance(mo, dict) and "rules" in mo:
@@ -1148,6 +1316,10 @@ class Prop(Check):
                     for a, mm_ in zip(attrs, ro["mults"]):
                         d["exact_multiplicity_agreement"][1] += 1
                         d["exact_multiplicity_agreement"][0] += o["grammar"]["ok"].get(r, {}).get(a) == mm_
+                    if "wrapped" in ro and r in o.get("roots", {}):
+                        d["rules_root_wrapped_model"] += bool(ro["wrapped"])
+                        d["rules_root_wrapped_agreement"][1] += 1
+                        d["rules_root_wrapped_agreement"][0] += (o["roots"][r] == ["Sequence", 1]) == bool(ro["wrapped"])
         for c, o in zip(cases, obs):
             if not isinstance(o, dict) or "grammar" not in o:
                 continue
@@ -1157,6 +1329,18 @@ class Prop(Check):
                 used = [v for k_, v in names_of(c).items() if k_ in c["rules"] or any(uses_rhs(b, k_) for b in c["rules"].values())]
                 d["grammars_with_rule_named_sep"] += "sep" in used
                 d["grammars_with_eolterm"] += has_eol(c)
+                d["grammars_with_rule_modifiers"] += bool(c.get("params"))
+                d["grammars_with_memoization"] += bool(c.get("memo"))
+                d["grammars_with_metamodel_noskipws"] += c.get("mm_skipws") is False
+                if c.get("sub_bare"):
+                    key = rule_body(c, "Sub")["k"]
+                    d["contained_rules_without_keyword_by_root"][key] = d["contained_rules_without_keyword_by_root"].get(key, 0) + 1
+                d["grammars_with_redundant_parentheses"] += any(
+                    n.get("par") for b in c["rules"].values() for n in walk_nodes(b))
+                for r in c["rules"]:
+                    if rule_params(c, r):
+                        key = rule_body(c, r)["k"]
+                        d["rules_with_modifiers_by_root"][key] = d["rules_with_modifiers_by_root"].get(key, 0) + 1
                 d["grammars_with_nullable_separator"] += any(
                     (sep_of(n) or {}).get("opt") for b in c["rules"].values() for n in walk_nodes(b))
                 for r, ms in o["grammar"]["ok"].items():
@@ -1171,6 +1355,8 @@ class Prop(Check):
                 d["watchdog"] += p.get("other") == "Watchdog" or t.get("model", {}).get("other") == "Watchdog"
                 if "ok" in p:
                     d["texts_accepted"] += 1
+                    d["texts_accepted_in_noskipws_grammars"] += c.get("mm_skipws") is False or any(
+                        n == "noskipws" for ps in (c.get("params") or {}).values() for n, _ in ps)
                     for ob in p["ok"]["objs"]:
                         d["objects_checked"] += 1
                         per = {}
@@ -1211,16 +1397,39 @@ class Prop(Check):
                 if uses_sub(rules["Model"]) and "Sub" not in rules:
                     continue
                 c = {"rules": rules, "auto_init": case.get("auto_init", True), "texts": []}
-                for key in ("names", "val"):
+                for key in ("names", "val", "memo", "mm_skipws"):
                     if key in case:
                         c[key] = case[key]
+                if case.get("sub_bare") and "Sub" in rules and can_be_bare(rules["Sub"]):
+                    c["sub_bare"] = True
+                if case.get("params"):
+                    ps = {r: v for r, v in case["params"].items() if r in rules}
+                    if ps:
+                        c["params"] = ps
                 c["texts"] = gen_texts(c, rng.fork("t"), 4)
                 c["texts"] += [dict(t, origin="kept") for t in texts[:2]]
                 yield c
-        # plain rule names, the simplest user match rule
-        for key in ("names", "val"):
+        # plain rule names, the simplest user match rule, no memoization
+        for key in ("names", "val", "memo"):
             if key in case:
                 yield {k_: v for k_, v in case.items() if k_ != key}
+        for key in ("mm_skipws", "sub_bare"):  # the texts depend on these
+            if key in case:
+                c = {k_: v for k_, v in case.items() if k_ != key}
+                c["texts"] = gen_texts(c, rng.fork(key), 4)
+                yield c
+        # fewer / simpler rule modifiers (the texts are derived anew: blanks depend on the modifiers)
+        for r, ps in (case.get("params") or {}).items():
+            smaller = [[]] + ([[q] for q in ps] if len(ps) > 1 else []) + ([[["skipws", None]]] if ps != [["skipws", None]] else [])
+            for q in smaller:
+                pp = {k_: v for k_, v in case["params"].items() if k_ != r}
+                if q:
+                    pp[r] = q
+                c = {k_: v for k_, v in case.items() if k_ != "params"}
+                if pp:
+                    c["params"] = pp
+                c["texts"] = gen_texts(c, rng.fork("p"), 4)
+                yield c
         # shorter texts
         if len(texts) == 1:
             toks = texts[0]["tokens"]
@@ -1231,6 +1440,8 @@ class Prop(Check):
 def shrink_body(n):
     """Smaller bodies: a child instead of the node, one element less."""
     k = n["k"]
+    if n.get("par"):
+        yield {kk: v for kk, v in n.items() if kk != "par"}
     for c in kids(n):
         yield c
     if k in ("seq", "alt", "un") and len(n["xs"]) > 1:
@@ -1287,3 +1498,45 @@ def small_family(rng):
         c["texts"] = gen_texts(c, rng, 3)
         c["origin"] = "family"
         yield c
+
+
+def rule_family(rng):
+    """Every root shape `visit_textx_rule` tells apart x every kind of rule modifier: the body is a lone
+    assignment, one repetition / optional / unordered group (both forms), a sequence or a choice, over one or
+    two plain assignment sites of `a` (and one of `b`), once as the rule `Model` and once as the contained
+    rule."""
+    def site(attr, kw):
+        return {"k": "seq", "xs": [{"k": "kw", "s": kw}, {"k": "asgn", "a": attr, "op": "=", "rhs": "INT"}]}
+
+    inners = [site("a", "@01"), {"k": "seq", "xs": [site("a", "@01"), site("a", "@02")]},
+              {"k": "alt", "xs": [site("a", "@01"), {"k": "seq", "xs": [site("b", "@03"), site("a", "@02")]}]}]
+    roots = []
+    for x in inners:
+        roots += [{"k": "rep", "plus": True, "x": x}, {"k": "rep", "plus": False, "x": x}, {"k": "opt", "x": x},
+                  {"k": "un", "xs": [x], "form": "seq"}, {"k": "un", "xs": [x, site("a", "@04")], "form": "alt"}, x]
+    roots += [{"k": "asgn", "a": "a", "op": op, "rhs": "INT"} for op in ("=", "+=", "*=")]
+    roots += [{"k": "rep", "plus": True, "x": {"k": "asgn", "a": "a", "op": "=", "rhs": "INT"}},
+              {"k": "un", "xs": [{"k": "rep", "plus": False, "x": site("a", "@01")}], "form": "seq"}]
+    for ps, _ in [([], 0)] + RULE_PARAMS:
+        for body in roots:
+            c = {"rules": {"Model": body}, "auto_init": rng.chance(0.5), "texts": []}
+            if ps:
+                c["params"] = {"Model": [list(x) for x in ps]}
+            c["texts"] = gen_texts(c, rng, 3)
+            c["origin"] = "family"
+            yield c
+    for ps, _ in RULE_PARAMS:
+        # the contained rule with modifiers: behind its keyword (the root is the sequence `'@sub' body`), and
+        # bare (the root is the body) where that is unambiguous
+        for body in roots:
+            for bare in (False, True):
+                if not (can_be_bare(body) if bare else body in roots[:6]):
+                    continue
+                c = {"rules": {"Model": {"k": "rep", "plus": True, "x": {"k": "asgn", "a": "c", "op": "=", "rhs": "Sub"}},
+                               "Sub": body},
+                     "auto_init": True, "params": {"Sub": [list(x) for x in ps]}, "texts": []}
+                if bare:
+                    c["sub_bare"] = True
+                c["texts"] = gen_texts(c, rng, 3)
+                c["origin"] = "family"
+                yield c
